@@ -139,3 +139,37 @@ func VerifC12_WordOperators() {
 	}
 	verifrt.Assert(got == want, "C12 word operator means the same in every spelling: "+p.text)
 }
+
+// `not (P)` is the negation of P for comparison atoms too, whatever the field
+// holds - a null field included (P is false there, so not (P) is true)
+var vC12NotAtoms = []string{`i < 3`, `i <= 3`, `i > 3`, `i >= 3`, `i = 3`, `i != 3`, `f < 1.5`, `f >= 1.5`, `t < ` + vT0s, `t >= ` + vT0s,
+	`s < "b"`, `s >= "b"`, `i between 1 and 5`, `i in [1, 3]`, `s contains "b"`}
+
+func init() {
+	verifQueryFamilies = append(verifQueryFamilies, func() []string {
+		var qs []string
+		for _, a := range vC12NotAtoms {
+			qs = append(qs, a, "not ("+a+")", "not (not ("+a+"))")
+		}
+		return qs
+	})
+}
+
+func VerifC12_NotOverComparisons() {
+	a := vC12NotAtoms[verifrt.Choose("atom", len(vC12NotAtoms))]
+	st := newSymTab()
+	null := verifrt.Bool("null")
+	st.syms["i"] = &vSym{typ: NodeTypeInt64, i: verifrt.Int64("i"), null: null}
+	st.syms["f"] = &vSym{typ: NodeTypeFloat64, f: verifrt.Float64("f"), null: null}
+	st.syms["s"] = &vSym{typ: NodeTypeString, s: verifrt.StringUpTo("s", 1), null: null}
+	st.syms["t"] = &vSym{typ: NodeTypeDatetime, t: verifrt.TimeUTC("t"), null: null}
+	p, err := Parse(st, a)
+	verifrt.Assert(err == nil, "C12 atom parses: "+a)
+	n, err := Parse(st, "not ("+a+")")
+	verifrt.Assert(err == nil, "C12 negated atom parses: "+a)
+	nn, err := Parse(st, "not (not ("+a+"))")
+	verifrt.Assert(err == nil, "C12 doubly negated atom parses: "+a)
+	pv := p.EvalBool(st)
+	verifrt.Assert(n.EvalBool(st) == verifrt.Not(pv), "C12 not (P) is the negation of P for every field value, null included: "+a)
+	verifrt.Assert(nn.EvalBool(st) == pv, "C12 not (not (P)) means P: "+a)
+}
